@@ -72,6 +72,7 @@ type sessStream struct {
 	recvEntered atomic.Int64
 	mu          sync.Mutex
 	outs        []*signaling.SessionResponse
+	parked      *signaling.SessionResponse // handed to Send, waiting at the driver's gate
 }
 
 func (s *sessStream) Recv() (*signaling.SessionRequest, error) {
@@ -85,13 +86,17 @@ func (s *sessStream) Recv() (*signaling.SessionRequest, error) {
 }
 func (s *sessStream) RecvTo(m *signaling.SessionRequest) error { return errors.New("unused") }
 func (s *sessStream) Send(m *signaling.SessionResponse) error {
+	s.mu.Lock()
+	s.parked = m.CloneVT()
+	s.mu.Unlock()
 	s.waitGate()
+	s.mu.Lock()
+	defer s.mu.Unlock()
+	s.parked = nil
 	if s.ctx.Err() != nil {
 		return context.Canceled
 	}
-	s.mu.Lock()
 	s.outs = append(s.outs, m.CloneVT())
-	s.mu.Unlock()
 	return nil
 }
 func (s *sessStream) SendAndClose(m *signaling.SessionResponse) error { return s.Send(m) }
@@ -379,6 +384,10 @@ func (w *world) exec(s stim) map[string]any {
 		select {
 		case c.ss.reqCh <- req:
 		case <-c.ss.ctx.Done():
+			// the call is on its way out and never read the request: it was not submitted
+			if s.A == "send" {
+				w.msgs, w.subs = w.msgs[:len(w.msgs)-1], w.subs[:len(w.subs)-1]
+			}
 			return nil
 		case <-time.After(20 * time.Second):
 			vio.Fatal("request on %s not consumed", s.C)
@@ -458,6 +467,10 @@ func (w *world) checkpoint() {
 	w.quiesce()
 	outs := map[string]any{}
 	rets := map[string]any{}
+	parked := map[string]any{}
+	for _, n := range callNames {
+		parked[n] = uint64(0)
+	}
 	for _, n := range callNames {
 		c := w.calls[n]
 		items := []map[string]any{}
@@ -489,6 +502,10 @@ func (w *world) checkpoint() {
 				items = append(items, it)
 			}
 			c.taken = len(c.ss.outs)
+			// a message the relay has handed to the stream while the driver holds it (transport back-pressure)
+			if pm := c.ss.parked.GetRecvMsg(); pm != nil {
+				parked[n] = pm.GetSeqno()
+			}
 			c.ss.mu.Unlock()
 		}
 		outs[n] = items
@@ -560,7 +577,7 @@ func (w *world) checkpoint() {
 		sort.Strings(wants)
 		peers[n] = map[string]any{"ex": true, "listening": p.Listening, "wants": wants}
 	}
-	w.out.Emit(map[string]any{"e": "q", "outs": outs, "rets": rets,
+	w.out.Emit(map[string]any{"e": "q", "outs": outs, "rets": rets, "parked": parked,
 		"snap": map[string]any{"sess": sess, "peers": peers, "nsess": len(ss), "npeers": len(ps)}})
 }
 
